@@ -51,9 +51,12 @@ func (fs *FS) Mkdir(name string, perm hackpadfs.FileMode) error {
 		return err
 	}
 	if name != "." {
-		_, err := fs.Stat(path.Dir(name))
+		parentInfo, err := fs.Stat(path.Dir(name))
 		if err != nil {
 			return fs.wrapperErr("mkdir", name, err)
+		}
+		if !parentInfo.IsDir() {
+			return fs.wrapperErr("mkdir", name, hackpadfs.ErrNotDir)
 		}
 	}
 	return fs.wrapperErr("mkdir", name, file.save())
@@ -120,7 +123,7 @@ func (fs *FS) getFiles(paths ...string) ([]*file, []error) {
 				path:              paths[i],
 				fs:                fs,
 			},
-		}, err
+		}, fs.refineNotExist(paths[i], err)
 	}
 	return files, errs
 }
@@ -206,6 +209,9 @@ func (fs *FS) OpenFile(name string, flag int, perm hackpadfs.FileMode) (afFile h
 	case errors.Is(err, hackpadfs.ErrNotExist) && flag&hackpadfs.FlagCreate != 0:
 		// require parent directory
 		err := errs[1]
+		if err == nil && !files[1].Mode().IsDir() {
+			err = hackpadfs.ErrNotDir
+		}
 		if err != nil {
 			return nil, fs.wrapperErr("open", name, err)
 		}
@@ -256,7 +262,7 @@ func (fs *FS) Remove(name string) error {
 func (fs *FS) Rename(oldname, newname string) error {
 	oldFile, err := fs.getFile(oldname)
 	if err != nil {
-		return &hackpadfs.LinkError{Op: "rename", Old: oldname, New: newname, Err: hackpadfs.ErrNotExist}
+		return &hackpadfs.LinkError{Op: "rename", Old: oldname, New: newname, Err: err}
 	}
 	oldInfo, err := oldFile.Stat()
 	if err != nil {
